@@ -27,6 +27,7 @@ CONSTANTS MaxProd,        \* productions per document (fuel)
           MaxWords,       \* visible words per document
           MaxList,        \* list prefix depth (<= 3)
           MaxTables,      \* table nesting depth
+          OrdinaryLists,  \* TRUE: a deeper list level only below an open shallower one
           Variants,       \* TRUE: whitespace / spelling variants are free choices
           Palette,        \* TRUE: attribute palette + snippets + macro tables
           Free,           \* TRUE: free lexemes
@@ -60,9 +61,9 @@ Has(k) == \E i \in 1..Len(stack) : stack[i].k = k
 Count(k) == Cardinality({i \in 1..Len(stack) : stack[i].k = k})
 
 \* index of the first token of the current line
-LineStart ==
-  LET idx == {i \in 1..Len(out) : out[i].t \in {"nl", "bl"}} IN
-  IF idx = {} THEN 1 ELSE (CHOOSE i \in idx : \A j \in idx : j <= i) + 1
+RECURSIVE BackToNl(_)
+BackToNl(i) == IF i = 0 THEN 1 ELSE IF out[i].t \in {"nl", "bl"} THEN i + 1 ELSE BackToNl(i - 1)
+LineStart == BackToNl(Len(out))
 WordsOnLine == \E i \in LineStart..Len(out) : out[i].t = "w"
 IsWordTok(tk) == tk.t = "w" \/ (tk.t = "lo" /\ tk.b = 0)
 IsApos(tk) == tk.t \in {"so", "sc"} /\ tk.b = 0
@@ -301,12 +302,16 @@ Ordinary(p) == Len(p) <= Len(lctx) + 1 /\ \A i \in 1..(Len(p) - 1) : p[i] = lctx
 ListLine ==
   /\ BlockOK /\ CanOpen /\ NW <= MaxWords
   /\ \E p \in Prefixes :
+       /\ OrdinaryLists => Ordinary(p)
        /\ out' = Append(out, Tok("li", PrefixCode(p), Len(p)))
        /\ lctx' = NewCtx(p)
        /\ flags' = IF Ordinary(p) THEN flags ELSE [flags EXCEPT !.lossless = FALSE]
   /\ stack' = Append(stack, Fr("li", 0, 0, 0))
   /\ pos' = "inl"
   /\ Spend /\ Same(<<den, sec, done>>)
+
+Rotor(m) == IF m = 0 THEN 0 ELSE ((Len(out) * 7 + NW * 3 + fuel) % m) + 1
+AttrChoices == IF Palette THEN {0, Rotor(NAttrs)} ELSE {0}
 
 (* ---------------------------------------------------------------- tables *)
 \* table frame: a = current row ordinal, b = cells in it,
@@ -318,7 +323,7 @@ SetT(f) == [TStack EXCEPT ![Len(TStack)] = f]
 
 OpenTable ==
   /\ BlockOK /\ CanOpen /\ fuel > CloseCost + 4 /\ Count("table") < MaxTables /\ NW <= MaxWords
-  /\ \E at \in (IF Palette THEN 0..NAttrs ELSE {0}) :
+  /\ \E at \in AttrChoices :
        /\ out' = out \o <<Tok("tb", at, 0), Tok("nl", 0, 0)>>
        /\ flags' = IF at = 0 THEN flags ELSE [flags EXCEPT !.clean = FALSE, !.lossless = FALSE]
   /\ stack' = Append(stack, Fr("table", 0, 0, 2))
@@ -373,7 +378,7 @@ CloseTable ==
 (* ---------------------------------------------------------------- block wrapper *)
 OpenDiv ==
   /\ BlockOK /\ CanOpen /\ Count("div") < 2
-  /\ \E at \in (IF Palette THEN 0..NAttrs ELSE {0}) :
+  /\ \E at \in AttrChoices :
        /\ out' = out \o <<Tok("do", at, 0), Tok("nl", 0, 0)>>
        /\ flags' = IF at = 0 THEN flags ELSE [flags EXCEPT !.clean = FALSE, !.lossless = FALSE]
   /\ stack' = Append(stack, Fr("div", 0, 0, 0))
@@ -388,13 +393,16 @@ CloseDiv ==
   /\ Spend /\ Same(<<den, sec, pos, flags, done>>)
 
 (* ---------------------------------------------------------------- palette (C05/C06 only) *)
+\* Which attribute set / snippet is used does not matter to the grammar; to keep the branching
+\* of the generator small it is picked by a rotor over the position in the document instead of
+\* being a free choice (different documents reach a point with different positions).
 Dirty == flags' = [flags EXCEPT !.clean = FALSE, !.lossless = FALSE]
 
 \* inline wrapper <span ATTR>…</span>
 OpenSpan ==
   /\ Palette /\ InInline /\ Room(4) /\ CanOpen /\ ~InPre /\ Count("span") < 2
-  /\ \E at \in 1..NAttrs, sp \in SpChoices(Glue, LineEmpty) :
-       out' = out \o SpTok(sp) \o <<Tok("xo", at, 0)>>
+  /\ \E sp \in SpChoices(Glue, LineEmpty) :
+       out' = out \o SpTok(sp) \o <<Tok("xo", Rotor(NAttrs), 0)>>
   /\ stack' = Append(stack, Fr("span", 0, 0, 0))
   /\ Dirty /\ Spend /\ Same(<<den, sec, lctx, pos, done>>)
 
@@ -409,9 +417,9 @@ CloseSpan ==
 Snippet ==
   /\ Palette /\ CanStep
   /\ \/ /\ BlockOK
-        /\ \E k \in 1..NSnips : out' = out \o <<Tok("snip", k, 1), Tok("nl", 0, 0)>>
+        /\ out' = out \o <<Tok("snip", Rotor(NSnips), 1), Tok("nl", 0, 0)>>
      \/ /\ InInline /\ ~InPre
-        /\ \E k \in 1..NSnips, sp \in SpChoices(Glue, LineEmpty) : out' = out \o SpTok(sp) \o <<Tok("snip", k, 0)>>
+        /\ \E sp \in SpChoices(Glue, LineEmpty) : out' = out \o SpTok(sp) \o <<Tok("snip", Rotor(NSnips), 0)>>
   /\ lctx' = IF AtBol THEN <<>> ELSE lctx
   /\ Dirty /\ Spend /\ Same(<<den, stack, sec, pos, done>>)
 
@@ -424,10 +432,11 @@ BigDen(r, c, base) ==
                          path |-> base \o <<Lab("Table", 0), Lab("Row", ((k - 1) \div c) + 1), Lab("Cell", 2 * (((k - 1) % c) + 1))>>,
                          t |-> 0]]
 BigShapes == {<<26, 2>>, <<2, 16>>, <<3, 1>>, <<1, 3>>, <<36, 1>>}
+NBig == Cardinality({i \in 1..Len(out) : out[i].t = "tb" /\ out[i].b = 1})
 BigTable ==
-  /\ Palette /\ BlockOK /\ CanStep /\ Count("table") < MaxTables
-  /\ \E sh \in BigShapes, at \in 0..NAttrs :
-       /\ out' = out \o <<Tok("tb", at, 0), Tok("nl", 0, 0)>> \o TableToks(sh[1], sh[2], 1, NW) \o <<Tok("te", 0, 0), Tok("nl", 0, 0)>>
+  /\ Palette /\ BlockOK /\ CanStep /\ Count("table") < MaxTables /\ NBig < 2
+  /\ \E sh \in BigShapes, at \in AttrChoices :
+       /\ out' = out \o <<Tok("tb", at, 1), Tok("nl", 0, 0)>> \o TableToks(sh[1], sh[2], 1, NW) \o <<Tok("te", 0, 0), Tok("nl", 0, 0)>>
        /\ den' = den \o BigDen(sh[1], sh[2], CurPath)
   /\ lctx' = <<>>
   /\ Dirty /\ Spend /\ Same(<<stack, sec, pos, done>>)
@@ -479,9 +488,12 @@ Spec == Init /\ [][Next]_vars
 WordToks == SelectSeq(out, IsWordTok)
 
 \* every word occurs exactly once in den
-WordsOnce == \A i, j \in 1..Len(den) : den[i].w = den[j].w => i = j
+\* den only ever grows at its end, so while a document is being built it suffices to look at the
+\* newest entry; the finished document is checked as a whole (keeps long simulations affordable)
+Scope == IF done THEN 1..Len(den) ELSE IF den = <<>> THEN {} ELSE {Len(den)}
+WordsOnce == \A i \in Scope : den[i].w = i             \* words are numbered in the order they are produced
 \* den order = order of the word tokens in out (only meaningful without free lexemes)
-DenOrder == ~flags.mal =>
+DenOrder == (done /\ ~flags.mal) =>
               /\ Len(WordToks) = Len(den)
               /\ \A i \in 1..Len(den) :
                    IF WordToks[i].t = "w" THEN WordToks[i].a = den[i].w /\ den[i].t = 0
@@ -501,7 +513,7 @@ PathOK(p) ==
        /\ p[i + 1].k = "Cell" => p[i].k = "Row"
        /\ p[i + 1].k \in {"Row", "Caption"} => p[i].k = "Table"
   /\ \A i \in 1..Len(p) : p[i].k = "SecTitle" => i > 1 /\ p[i - 1].k = "Sec" /\ p[i - 1].a = p[i].a
-PathsOK == \A i \in 1..Len(den) : PathOK(den[i].path)
+PathsOK == \A i \in Scope : PathOK(den[i].path)
 \* the path of the next word agrees with the open constructs
 CurPathOK == PathOK(CurPath) /\ (sec # <<>> => \A i \in 1..(Len(sec) - 1) : sec[i] < sec[i + 1])
 \* a finished document has everything closed
